@@ -140,6 +140,48 @@ def setup(rec, tier):
     return {"cs": cs}
 
 
+def _history(rng, rec, s, members, core_attr):
+    """Read - change - read: the getter monitors judge every read against the *current* core and radius, so a value
+    remembered from before the change (a cache keyed on nothing, or updated only by the shape's own setters) shows up."""
+    steps = []
+    core = getattr(s, core_attr) if core_attr else None
+    with contracts.quiet():
+        L = float(np.ptp(np.asarray(s.vertices, float), axis=0).max())     # moves are relative to the shape's size
+    size_core = "volume" if core_attr == "polyhedron" else "area"
+    options = ["own-size", "radius"] if core_attr else ["own-size", "centroid"]
+    if core is not None:
+        options += ["core-size", "core-size2", "core-centroid"]
+    for _ in range(int(rng.integers(1, 3))):
+        op = options[int(rng.integers(len(options)))]
+        f = float(np.exp(rng.uniform(-1.0, 1.0)))
+        try:
+            with contracts.quiet():
+                if op == "own-size":
+                    m = members[0]
+                    setattr(s, m, abs(float(getattr(s, m))) * f)
+                elif op == "radius":
+                    s.radius = float(s.radius) * f if rng.random() < 0.7 else 0.0
+                elif op == "core-size":
+                    setattr(core, size_core, abs(float(getattr(core, size_core))) * f)
+                elif op == "core-size2":
+                    m2 = "surface_area" if core_attr == "polyhedron" else "perimeter"
+                    setattr(core, m2, float(getattr(core, m2)) * f)
+                elif op == "core-centroid":
+                    core.centroid = np.asarray(core.centroid, float) + L * rng.uniform(-2, 2, size=3) * (1 if core_attr == "polyhedron" else 0)
+                elif op == "centroid":
+                    s.centroid = np.asarray(s.centroid, float) + L * rng.uniform(-2, 2, size=3)
+            steps.append(op)
+        except Exception as e:
+            steps.append(f"{op}:refused-{type(e).__name__}")
+    rec.cls("history:" + "+".join(sorted(set(x.split(":")[0] for x in steps))))
+    for m in members:
+        try:
+            getattr(s, m)
+        except Exception as e:
+            rec.violation(f"{type(s).__name__}.{m}", f"{type(s).__name__}.{m}/raises-{type(e).__name__}-after-{'+'.join(steps)}",
+                          {"exc": repr(e)[:200], "steps": steps})
+
+
 def _radius(rng, size):
     if rng.random() < 0.2:
         return 0.0
@@ -178,6 +220,8 @@ def run_case(i, rng, rec, tier, state):
                 ok = (abs(vals["area"] - core.area) <= 1e-12 * core.area and abs(vals["perimeter"] - core.perimeter) <= 1e-12 * core.perimeter)
             rec.check("r=0:core", ok, "ConvexSpheropolygon/r=0-differs-from-core", {"V": V})
         rec.nontriv(V, r) if r > 0 else None
+        if (i // 3) % 2 == 0:
+            _history(rng, rec, s, ("area", "signed_area", "perimeter"), "polygon")
         if i < 6:
             rec.sample({"class": "ConvexSpheropolygon", "vertices": V, "radius": r})
         return
@@ -211,6 +255,8 @@ def run_case(i, rng, rec, tier, state):
             rec.check("r=0:core", ok, "ConvexSpheropolyhedron/r=0-differs-from-core", {"V": P, "vals": vals})
         if r > 0:
             rec.nontriv(P[np.lexsort(P.T)], r)
+        if (i // 3) % 2 == 0:
+            _history(rng, rec, s, ("volume", "surface_area", "mean_curvature"), "polyhedron")
         if i < 6:
             rec.sample({"class": "ConvexSpheropolyhedron", "kind": c["kind"], "n": len(P), "radius": r})
         return
@@ -245,5 +291,7 @@ def run_case(i, rng, rec, tier, state):
             rec.ok("ConvexPolyhedron.get_dihedral")
     if any(len(f) > 3 for f in C["h"].facets) or c["offset_ratio"] > 0:
         rec.nontriv(P[np.lexsort(P.T)], "descriptors")
+    if (i // 3) % 2 == 0:
+        _history(rng, rec, s, ("volume", "mean_curvature", "tau", "asphericity", "iq"), None)
     if i < 6:
         rec.sample({"class": "ConvexPolyhedron", "kind": c["kind"], "n": len(P)})
